@@ -118,8 +118,11 @@ def audit_run(ctx, run, T_over):
 def presets(ctx):
     ps = []
     base = [("ARG", {}), ("USA", dict(scenario="no_resilient_foods", shutoff="continued")), ("JPN", dict(shutoff="continued")),
-            ("IND", dict(scenario="industrial_foods", shutoff="short_delayed_shutoff")), ("DJI", dict(shutoff="continued_after_10_percent_fed"))]
-    Ts = [None, 0, 10, 50, 100]
+            ("IND", dict(scenario="industrial_foods", shutoff="short_delayed_shutoff")), ("DJI", dict(shutoff="continued_after_10_percent_fed")),
+            # shut-off at month 0; the two strategies that keep herds going, in a country that ends below the threshold
+            ("ARG", dict(shutoff="immediate", NMONTHS=48)), ("USA", dict(scenario="no_resilient_foods", meat_strategy="baseline_breeding", NMONTHS=72)),
+            ("USA", dict(scenario="no_resilient_foods", meat_strategy="feed_only_ruminants", NMONTHS=72))]
+    Ts = [None, 0, 10, 50, 100, None, None, None]
     for j, (iso, o) in enumerate(base):
         t = Ts[j % len(Ts)]
         o = dict(o)
